@@ -106,14 +106,19 @@ int c_aggregate(int nval, int operator, int maxnan, int * aggindex,
 long long c_combi(int n, int k)
 {
     long long ans=1;
+    /* (difference in 64 bits: n-k does not fit an int for all n, k) */
+    long long nk=(long long)n-(long long)k;
     int j=1;
 
     /* Skip if number  is too high */
-    if(k>30 || n-k>30){
+    if(k>30 || nk>30){
         return -1;
     }
 
-    k = k>n-k ? n-k : k;
+    if(nk<0)
+        k = -1;
+    else
+        k = k>nk ? (int)nk : k;
 
     for(;j<=k;j++,n--)
     {
